@@ -881,10 +881,11 @@ sc_options_load_ini (int package_id, int err_priority,
     ++item->called;
     switch (item->opt_type) {
     case SC_OPTION_SWITCH:
-      bvalue = iniparser_getboolean (dict, key, -1);
-      if (bvalue == -1) {
-        bvalue = sc_iniparser_getint (dict, key, 0, &iserror);
-        if (bvalue <= 0 || iserror) {
+      bvalue = sc_iniparser_getint (dict, key, 0, &iserror);
+      if (bvalue <= 0 || iserror) {
+        /* not a positive count: accept the boolean spellings */
+        bvalue = iniparser_getboolean (dict, key, -1);
+        if (bvalue == -1 || iserror) {
           SC_GEN_LOGF (package_id, SC_LC_GLOBAL, err_priority,
                        "Invalid switch %s in file: %s\n", key, inifile);
           iniparser_freedict (dict);
